@@ -33,7 +33,12 @@ pub fn run_apply(rule: &Value, data: &Value) -> Outcome {
         .collect();
     match res {
         Ok(Ok(v)) => Outcome { ok: true, v, log, events, crash: None },
-        Ok(Err(_)) => Outcome { ok: false, v: Value::Null, log, events, crash: None },
+        // an error carries the name of its variant of the public error enumeration (first identifier of its Debug form)
+        Ok(Err(e)) => {
+            let dbg = format!("{:?}", e);
+            let name: String = dbg.chars().take_while(|c| c.is_ascii_alphanumeric() || *c == '_').collect();
+            Outcome { ok: false, v: Value::String(name), log, events, crash: None }
+        }
         Err(p) => {
             let msg = if let Some(s) = p.downcast_ref::<&str>() {
                 s.to_string()
@@ -54,7 +59,8 @@ pub fn outcome_aj(o: &Outcome) -> Value {
     if o.ok {
         json!({"ok": true, "v": aj::to_aj(&o.v), "log": o.log.iter().map(aj::to_aj).collect::<Vec<_>>()})
     } else {
-        json!({"ok": false, "v": {"t":"z"}, "log": o.log.iter().map(aj::to_aj).collect::<Vec<_>>()})
+        // v: the name of the error's variant (a string), null when unknown
+        json!({"ok": false, "v": aj::to_aj(&o.v), "log": o.log.iter().map(aj::to_aj).collect::<Vec<_>>()})
     }
 }
 
@@ -83,6 +89,22 @@ pub fn events_aj(evs: &[Event]) -> Vec<Value> {
 
 /// Compare an expected outcome (AJ, from the spec) with an actual outcome.
 /// Returns None when they agree, else a short reason.
+/// The variant of the error enumeration named by the specification (when it names one) against the actual one.
+/// No property statement pins the variant: a difference is reported as drift between specification and code.
+pub fn variant_drift(exp: &Value, act: &Outcome) -> Option<String> {
+    if act.crash.is_some() || act.ok || exp["ok"].as_bool().unwrap_or(true) {
+        return None;
+    }
+    let want = match aj::from_aj(&exp["v"]) {
+        Ok(Value::String(s)) => s,
+        _ => return None,
+    };
+    match &act.v {
+        Value::String(got) if *got != want => Some(format!("error variant differs: specification {} code {}", want, got)),
+        _ => None,
+    }
+}
+
 pub fn compare(exp: &Value, act: &Outcome, zlax: bool, logseq: bool) -> Option<String> {
     if let Some(c) = &act.crash {
         return Some(format!("crash: {}", c));
